@@ -210,6 +210,38 @@ def simple_special(chk):
         for pi, (path, out, obls, writes, cur) in enumerate(I.run_function(func, mk)):
             goal = to_bool_term(out.value) == spec(cur["obj"]) if out.kind == "ret" else z3.BoolVal(False)
             chk.add(Ob(func, "answer-is-the-identity-test-of-the-statement", f"p{pi}", path.hyps + class_axioms(), goal, {"outcome": out.kind}))
+    # isclassvartype: the ClassVar form itself, bare or subscripted, after NewType resolution
+    I3 = special_interp()
+    rs = z3.Function("resolve_supertype", Val, Val)
+    has_o, dunder_o = z3.Function("has___origin__", Val, BoolS), z3.Function("__origin__", Val, Val)
+    I3.stubs[f"{INSP}.resolve_supertype"] = Stub("inspection.resolve_supertype", lambda I, p, a, k: SV(rs(to_val(a[0]))), "resolve_supertype(x): x with NewType layers removed (C11)")
+
+    def gd(I, path, obj, name, default):
+        if isinstance(obj, SV) and name == "__origin__":
+            return SV(dunder_o(obj.t)) if path.branch(has_o(obj.t)) else default
+        return _MISSING
+    I3.hooks["getattr_default"] = gd
+    I3.builtin_models[typing.get_origin] = lambda I, path, a, k: SV(get_origin_v(to_val(a[0])))
+    func = f"{INSP}.isclassvartype"
+    CV = _val_of(typing.ClassVar)
+
+    def mk(I, path):
+        obj = path.fresh("obj")
+        return [SV(obj)], {}, {"obj": obj}
+    for pi, (path, out, obls, writes, cur) in enumerate(I3.run_function(func, mk)):
+        o = rs(cur["obj"])
+        # typing.get_origin of a ClassVar[...] alias is its __origin__; the bare form has no origin (documented typing behaviour)
+        typing_ax = [(get_origin_v(o) == CV) == z3.And(has_o(o), dunder_o(o) == CV), z3.Not(has_o(CV))]
+        spec = z3.Or(o == CV, z3.And(has_o(o), dunder_o(o) == CV))
+        goal = to_bool_term(out.value) == spec if out.kind == "ret" else z3.BoolVal(False)
+        chk.add(Ob(func, "true-exactly-for-the-ClassVar-form-bare-or-subscripted-after-NewType-resolution", f"p{pi}", path.hyps + typing_ax + class_axioms(),
+                   goal, {"outcome": out.kind}))
+    chk.trusted.add("typing.get_origin(x) is ClassVar exactly when x.__origin__ is ClassVar (bare ClassVar has no origin): documented typing behaviour, assumed")
+    from typelib.py import inspection as _i
+    yes = [typing.ClassVar, typing.ClassVar[int], typing.ClassVar[typing.Optional[str]], typing.NewType("CVN", typing.ClassVar[str])]
+    no = [int, typing.Final, typing.Final[int], typing.Optional[int], list[int], typing.Any, "ClassVar"]
+    bad = [repr(x) for x in yes if _i.isclassvartype(x) is not True] + [repr(x) for x in no if _i.isclassvartype(x) is not False]
+    chk.add(Ob(func, "bare-and-subscripted-ClassVar-are-recognised-other-forms-are-not", "ground", [], z3.BoolVal(not bad), {"bad": bad}))
     # isunresolvable: membership in the documented table (read from the source), by identity/equality; or a TypeVar;
     # or a subscripted callable / class-as-value (typing.get_origin is collections.abc.Callable or type)
     func = f"{INSP}.isunresolvable"
